@@ -488,6 +488,32 @@ def dt1(model):
         else:
             r.fail(top, 'the markup text %r falls through to the default branch' % t,
                    stmt='dispatch of %r' % t)
+    # (b) order: the text of a VerbatimToken is arbitrary user text; a branch that tests the
+    # token text against markup and stands in front of the VerbatimToken branch (without
+    # excluding that class itself) takes \verb|$| for a maths delimiter and \verb|{| for a brace
+    verb_idx = None
+    for i, (test, body) in enumerate(branches):
+        if any(isinstance(n, ast.Compare) and isinstance(n.ops[0], ast.Is) and isinstance(n.left, ast.Call)
+               and getattr(n.left.func, 'id', '') == 'type' and unparse(n.comparators[0]).endswith('VerbatimToken')
+               for n in ast.walk(test)):
+            verb_idx = i
+    if verb_idx is not None:
+        for i, (test, body) in enumerate(branches[:verb_idx]):
+            lits = [n.comparators[0].value for n in ast.walk(test) if isinstance(n, ast.Compare) and len(n.ops) == 1
+                    and isinstance(n.ops[0], ast.Eq) and isinstance(n.comparators[0], ast.Constant)
+                    and isinstance(n.left, ast.Attribute) and n.left.attr == 'txt'
+                    and n.comparators[0].value in MARKUP_TEXTS]
+            classy = any(isinstance(n, ast.Compare) and isinstance(n.left, ast.Call) and getattr(n.left.func, 'id', '') == 'type'
+                         for n in ast.walk(test))
+            if lits and not classy:
+                r.fail(test, 'the branch for the text %s stands in front of the VerbatimToken branch: '
+                       'verbatim text that happens to be %s is taken for markup'
+                       % (' / '.join(repr(x) for x in lits), ' or '.join(repr(x) for x in lits)),
+                       witness='A \\verb|$| B  (false "missing end of maths", rest of the paragraph lost)')
+            elif lits:
+                r.ok(test, 'text test combined with a class test', nontrivial=True)
+        if not any(f_.rule == 'DT1' and 'VerbatimToken branch' in f_.msg for f_ in r.findings):
+            r.ok(branches[verb_idx][0], 'no markup text test precedes the VerbatimToken branch', nontrivial=True)
     # comment branch emits nothing
     cb = classes.get('CommentToken')
     if cb is not None:
